@@ -301,6 +301,16 @@ def gen_cases(tier, seed):
         add("N", "".join(rng.choice(num_alpha) for _ in range(rng.choice([1, 2, 3, 4, 6, 10]))), "-", "soup", None)
         add("C", "".join(rng.choice(cl_alpha) for _ in range(rng.choice([0, 1, 2, 3, 4, 6, 10, 16]))), "-", "soup", None)
         add("B", "".join(rng.choice(bl_alpha) for _ in range(rng.choice([0, 1, 2, 3, 4, 6, 10, 16]))), "-", "soup", None)
+    # the grammar of str::parse::<f64> (reached through parse_simple_number when the text is not an i32)
+    for t in ["nan", "NaN", "inf", "-inf", "+Infinity", "infinit", "1e5", "1E5", "1e+5", "1e-5", "1e", "1e+", ".5", "5.", ".", "+1", "-1",
+              "+", "-", "+.5e1", "-0.0", "0e0", "00.100", "1.5e3x", "1..5", "1.5.2", "e5", "1e5.0", "1e999999999999999999999",
+              "1e-999999999999999999999", "0e999999999999", "1.7976931348623157e308", "1.7976931348623159e308",
+              "2.4703282292062327e-324", "2.4703282292062328e-324", "4.9e-324", "9007199254740993", "9007199254740995",
+              "0.1e1_", "1_e5", "1e_5", "12345678901234567890123", "179769313486231580793728971405303415079934132710037826936173778980444968292764750946649017977587207096330286416692887910946555547851940402630657488671505820681908902000708383676273854845817711531764475730270069855571366959622842914819860834936475292719074168444365510704342711559699508093042880177904174497791",
+              "179769313486231580793728971405303415079934132710037826936173778980444968292764750946649017977587207096330286416692887910946555547851940402630657488671505820681908902000708383676273854845817711531764475730270069855571366959622842914819860834936475292719074168444365510704342711559699508093042880177904174497792"]:
+        add("N", t, "-", "soup", None)
+    for _ in range(20000 if thorough else 2000):
+        add("N", "".join(rng.choice("0123456789" * 3 + "..eE+-_") for _ in range(rng.choice([2, 3, 4, 5, 7, 9, 24, 40]))), "-", "soup", None)
     return out
 
 
@@ -521,7 +531,10 @@ def run_check(tier, seed):
                         if stats["model_disagreements"] <= 5:
                             v.tie_failure("correspondence literal: %s %s impl=%s model=%s" % (case, f, impl_f.get(f), model_f.get(f)))
                         break
-                if spec == "OUT" and exp is not None and (exp["D"] == "Err" or exp["D"].startswith("F:")):
+                if spec == "F64-MODEL-DIFFERS":
+                    stats["model_disagreements"] += 1
+                    v.tie_failure("correspondence literal: %s: the model's parse_f64 differs from str::parse::<f64> (%s)" % (case, oracle))
+                elif spec == "OUT" and exp is not None and (exp["D"] == "Err" or exp["D"].startswith("F:")):
                     pass        # the spec says: the digits' value does not fit an i32
                 elif spec == "MISMATCH" or (spec != "-" and exp is not None and "name" not in exp and spec != exp["D"]) \
                         or (spec != "-" and exp is not None and "name" in exp and spec != "M:" + cps(exp["name"])):
